@@ -1,4 +1,5 @@
 import CffiVerif.Model.LayoutFlags
+import CffiVerif.Proofs.Layout
 /-
 The all-flags model of the field loop (`Model/LayoutFlags.lean`) restricted to the
 flags `complete_sflags` selects on x86-64 Linux (GCC-x86 bit-field style, little
@@ -26,7 +27,7 @@ theorem proj_bo (t : StF) : (proj t).byteoffset = t.byteoffset := rfl
 theorem proj_bi (t : StF) : (proj t).bitoffset = t.bitoffset := rfl
 theorem proj_al (t : StF) : (proj t).alignment = t.alignment := rfl
 theorem proj_mx (t : StF) : (proj t).byteoffsetmax = t.byteoffsetmax := rfl
-theorem proj_bump (A x bo m p q : Nat) : proj (StF.bump A x bo m p q) = St.bump A x bo m := rfl
+theorem proj_bump (A x bo m p q : Nat) : proj (StF.bump A x bo m p q) = bumpRef A x bo m := rfl
 
 theorem map_ite {α β : Type} (g : α → β) (c : Prop) [Decidable c] (x y : Except Reject α) :
     Except.map g (if c then x else y) = if c then Except.map g x else Except.map g y := by
@@ -44,11 +45,11 @@ theorem step_x86 (fl : Flags) (hx : IsX86 fl) (u : Bool) (pack : Nat) (last : Bo
     Except.map (fun r => (r.1, r.2.map liftC)) (stepC u pack fl.packed last (proj t) f) := by
   obtain ⟨m, a, b⟩ := hx
   by_cases hg : (f.size.isNone && !(f.isArray && f.bits.isNone && last)) = true
-  · simp only [stepC, stepF, liftF, hg, if_true]; rfl
+  · simp only [stepC_eq_ref, stepCRef, stepF, liftF, hg, if_true]; rfl
   · cases hb : f.bits with
     | none =>
       rw [hb] at hg
-      simp only [stepC, stepF, liftF, hb, hg, if_false, proj_bo, proj_bi, proj_al, proj_mx, Except.map, proj_bump]
+      simp only [stepC_eq_ref, stepCRef, stepF, liftF, hb, hg, if_false, proj_bo, proj_bi, proj_al, proj_mx, Except.map, proj_bump]
       refine congrArg Except.ok (congrArg (Prod.mk _) ?_)
       by_cases h : (!f.named && f.isAgg) = true
       · simp [h, List.map_map, Function.comp, liftC]
@@ -58,23 +59,23 @@ theorem step_x86 (fl : Flags) (hx : IsX86 fl) (u : Bool) (pack : Nat) (last : Bo
       by_cases hi : f.intlike = true
       · cases hsz : f.size with
         | none =>
-          simp only [stepC, stepF, liftF, hb, hg, hi, hsz, if_false, Bool.not_true, Bool.false_eq_true]
+          simp only [stepC_eq_ref, stepCRef, stepF, liftF, hb, hg, hi, hsz, if_false, Bool.not_true, Bool.false_eq_true]
           split <;> rfl
         | some sz =>
           rw [hsz] at hg
           by_cases hw : w > 8 * sz
-          · simp only [stepC, stepF, liftF, hb, hg, hi, hsz, hw, if_true, if_false, Bool.not_true, Bool.false_eq_true]
+          · simp only [stepC_eq_ref, stepCRef, stepF, liftF, hb, hg, hi, hsz, hw, if_true, if_false, Bool.not_true, Bool.false_eq_true]
             rfl
           · by_cases hw0 : w = 0
             · subst hw0
               by_cases hn : f.named = true
-              · simp only [stepC, stepF, liftF, hb, hg, hi, hsz, hw, hn, if_true, if_false, Bool.not_true,
+              · simp only [stepC_eq_ref, stepCRef, stepF, liftF, hb, hg, hi, hsz, hw, hn, if_true, if_false, Bool.not_true,
                   Bool.false_eq_true]
                 rfl
-              · simp only [stepC, stepF, liftF, hb, hg, hi, hsz, hw, hn, m, a, if_true, if_false, Bool.not_true,
+              · simp only [stepC_eq_ref, stepCRef, stepF, liftF, hb, hg, hi, hsz, hw, hn, m, a, if_true, if_false, Bool.not_true,
                   Bool.not_false, Bool.false_eq_true, proj_bo, proj_bi, proj_al, proj_mx, Except.map, proj_bump, List.map]
                 rfl
-            · simp only [stepC, stepF, liftF, hb, hg, hi, hsz, hw, hw0, m, a, b, endianShift, if_true, if_false,
+            · simp only [stepC_eq_ref, stepCRef, stepF, liftF, hb, hg, hi, hsz, hw, hw0, m, a, b, endianShift, if_true, if_false,
                 Bool.not_true, Bool.not_false, Bool.false_eq_true, proj_bo, proj_bi, proj_al, proj_mx]
               simp only [map_ite]
               refine ite_congr' (fun _ => ite_congr' (fun _ => rfl) (fun _ => ?_)) (fun _ => ?_)
@@ -82,7 +83,7 @@ theorem step_x86 (fl : Flags) (hx : IsX86 fl) (u : Bool) (pack : Nat) (last : Bo
                 cases f.named <;> simp [liftC] <;> (congr 1; split <;> simp_all)
               · simp only [Except.map, proj_bump]
                 cases f.named <;> simp [liftC] <;> (congr 1; split <;> simp_all)
-      · simp only [stepC, stepF, liftF, hb, hg, hi, if_true, if_false, Bool.not_false]; rfl
+      · simp only [stepC_eq_ref, stepCRef, stepF, liftF, hb, hg, hi, if_true, if_false, Bool.not_false]; rfl
 
 theorem isEmpty_map {α β : Type} (g : α → β) (l : List α) : (l.map g).isEmpty = l.isEmpty := by
   cases l <;> rfl
@@ -149,7 +150,7 @@ theorem complete_x86 (fl : Flags) (hx : IsX86 fl) (u : Bool) (p : Nat) (hp : fl.
       rw [hF, hC] at h
       simp only [Except.map, Except.ok.injEq, Prod.mk.injEq] at h ⊢
       obtain ⟨h1, h2⟩ := h
-      simp only [finishF, finishC, liftL, ← h1, h2, proj]
+      simp only [finishF, finishC_ref, liftL, ← h1, h2, proj]
 
 def liftI (i : CInfo) : FInfo := ⟨i.size, i.align, i.intlike, i.isArray, i.isAgg, i.sub.map liftC⟩
 
